@@ -84,12 +84,14 @@ def run(ctx):
         env = env_icmp if kind == "icmp" else {}
         site = D.SITE[kind]
         # ---- ideal instances: the whole relation on the real handler
-        docs, want_steps = [], 0
+        docs, want_steps, docs_by_name = [], 0, {}
         for (what, k, name), (c, r) in rel.items():
             if k != kind or what != "ideal":
                 continue
             doc, npaths, nnodes, nedges, nsteps = D.make_doc(kind, name, c, r.edges, c["Max"])
             docs.append(doc)
+            docs_by_name[name] = doc
+            r.edges = []        # the relation lives on in the document (states shared): keep memory flat
             want_steps += nsteps
             tot_edges += nedges
             cov["instances"]["%s/%s" % (kind, name)] = {"constants": {k2: str(v) for k2, v in c.items()}, "states": r.distinct,
@@ -110,27 +112,29 @@ def run(ctx):
                 per_act[a] = per_act.get(a, 0) + n
         cov["replayed_steps_per_action_" + kind] = per_act
         if mism:
-            # classify against the single-deviation relations of the same instance
-            by_cfg = {}
-            for mm in mism:
-                by_cfg.setdefault(mm.get("cfg"), []).append(mm)
-            for name, mms in by_cfg.items():
-                c, r = rel[("ideal", kind, name)]
-                devs = [d for d in D.dev_cfgs(kind) if d != "DevEmitAfterCloseInClear" and D.dev_cfgs(kind)[d]]
-                rr = R.tlc_many(ctx, [dict(module=D.MODULE, name="rel_%s_%s_%s" % (kind, name, d), workers=2,
-                                           cfg=R.cfg_text(c, dev=[d], emit=True)) for d in devs])
-                dev_ix = {d: R.index_relation(x.edges, D.base_act) for d, x in zip(devs, rr)}
-                ideal_ix = R.index_relation(r.edges, D.base_act)
-                for mm in sorted(mms, key=lambda m: len(m.get("prefix", []))):
-                    ds = R.classify(mm, dev_ix, D.base_act, D.proj, D.same_result, ideal_ix) if mm.get("step", -1) >= 0 else []
-                    a = mm.get("a", {})
+            # findings protocol: re-validate the observed history with exactly one deviation enabled (a few distinct classes)
+            seen = {}
+            for mm in sorted(mism, key=lambda m: len(m.get("prefix", []))):
+                a = mm.get("a", {})
+                cls = (mm.get("cfg"), a.get("act"), mm.get("spec_res"), mm.get("real_res"), bool(mm.get("late")))
+                if cls in seen:
+                    seen[cls] += 1
+                    continue
+                seen[cls] = 1
+                if mm.get("late") or mm.get("step", -1) < 0:
+                    key = "DatagramSession:late-frame-or-datagram:%s:%s" % (D.GENERIC_SITE[kind], a.get("act"))
+                elif len(seen) > 3:
+                    key = "DatagramSession:unclassified:%s:%s:%s" % (D.GENERIC_SITE[kind], a.get("act"), mm.get("real_res"))
+                else:
+                    c, doc = rel[("ideal", kind, mm["cfg"])][0], docs_by_name[mm["cfg"]]
+                    ds = D.classify(ctx, "%s_%d" % (kind, len(seen)), c, doc, mm)
+                    ctx.log("mismatch %s: explained by %s" % (cls, ds or "no single deviation"))
                     if ds:
                         key = "DatagramSession:%s:%s" % (ds[0], site.get(ds[0], D.GENERIC_SITE[kind]))
-                    elif mm.get("late"):
-                        key = "DatagramSession:late-frame-or-datagram:%s" % D.GENERIC_SITE[kind]
                     else:
                         key = "DatagramSession:unexplained:%s:%s:%s" % (D.GENERIC_SITE[kind], a.get("act"), mm.get("real_res"))
-                    ctx.finding(key, D.describe(mm), mm)
+                ctx.finding(key, D.describe(mm), mm)
+            cov["mismatch_classes_" + kind] = {str(k): v for k, v in seen.items()}
         # ---- two peers, one stream id
         c, r = rel[("collide", kind, "collide")]
         cdoc, npaths, nnodes, nedges, nsteps = D.make_doc(kind, "collide", c, r.edges, c["Max"])
@@ -235,8 +239,7 @@ def run(ctx):
                             idle["idle_ms"], "; ".join(badidle), vf.canon(idle["final"])), idle)
         tot_paths += tsum["histories"]
 
-    transitions = sum(len(r.edges) for (w, k, n, c), r in zip(index, results) if w in ("ideal", "collide", "byid")) + \
-        sum(r.generated for (w, k, n, c), r in zip(index, results) if w == "split")
+    transitions = sum(r.generated for (w, k, n, c), r in zip(index, results) if w in ("ideal", "collide", "byid", "split"))
     ctx.evidence("model_checking", assumptions=assumptions + [
         "bounded instances (constants per instance in coverage.instances); sessions are opened at most once per slot; no new "
         "OPEN after Handler.Close or from a peer that is gone",
